@@ -1,9 +1,67 @@
-(* C09: the canonical "walk" of a structure, computed with the accessors translated from the Rust source
-   (Gen/Accessors.v), and the bump operations that the mutable iterators are tested with. *)
+(* C09: the canonical walk of a structure computed from the nested traversals of Spec/Hier.v (the specification every
+   accessor is proved equal to in Props/C09.v), and the bump operations that the mutable iterators are tested with. *)
 From Coq Require Import List Ascii String ZArith Bool.
-From PV Require Import Base.Sx Base.Text Spec.Hier Gen.Accessors Model.Edit.
+From PV Require Import Base.Sx Base.Text Spec.Hier Model.Edit.
 Import ListNotations.
 Local Open Scope string_scope.
+
+
+(* the specification of each accessor (Props/C09.v proves the translated Rust accessor equal to it) *)
+Definition Conformer_atom_count c := List.length (c_atoms c).
+Definition Conformer_atoms c := c_atoms c.
+Definition Residue_conformer_count r := List.length (r_confs r).
+Definition Residue_atom_count r := List.length (r_atoms r).
+Definition Residue_conformers r := r_confs r.
+Definition Residue_atoms r := r_atoms r.
+Definition Residue_atoms_with_hierarchy r := r_awh r.
+Definition Chain_residue_count c := List.length (ch_residues c).
+Definition Chain_conformer_count c := List.length (ch_confs c).
+Definition Chain_atom_count c := List.length (ch_atoms c).
+Definition Chain_residues c := ch_residues c.
+Definition Chain_conformers c := ch_confs c.
+Definition Chain_atoms c := ch_atoms c.
+Definition Chain_atoms_with_hierarchy c := ch_awh c.
+Definition Model_chain_count m := List.length (m_chains m).
+Definition Model_residue_count m := List.length (m_residues m).
+Definition Model_conformer_count m := List.length (m_confs m).
+Definition Model_atom_count m := List.length (m_atoms m).
+Definition Model_chains m := m_chains m.
+Definition Model_residues m := m_residues m.
+Definition Model_conformers m := m_confs m.
+Definition Model_atoms m := m_atoms m.
+Definition Model_atoms_with_hierarchy m := m_awh m.
+Definition PDB_model_count (p : pdb) := List.length p.
+Definition PDB_chain_count p := first_model_count Model_chain_count p.
+Definition PDB_residue_count p := first_model_count Model_residue_count p.
+Definition PDB_conformer_count p := first_model_count Model_conformer_count p.
+Definition PDB_atom_count p := first_model_count Model_atom_count p.
+Definition PDB_par_residue_count := PDB_residue_count.
+Definition PDB_par_conformer_count := PDB_conformer_count.
+Definition PDB_par_atom_count := PDB_atom_count.
+Definition PDB_total_chain_count p := List.length (p_chains p).
+Definition PDB_total_residue_count p := List.length (p_residues p).
+Definition PDB_total_conformer_count p := List.length (p_confs p).
+Definition PDB_total_atom_count p := List.length (p_atoms p).
+Definition PDB_par_total_chain_count := PDB_total_chain_count.
+Definition PDB_par_total_residue_count := PDB_total_residue_count.
+Definition PDB_par_total_conformer_count := PDB_total_conformer_count.
+Definition PDB_par_total_atom_count := PDB_total_atom_count.
+Definition PDB_models (p : pdb) := p.
+Definition PDB_chains p := p_chains p.
+Definition PDB_residues p := p_residues p.
+Definition PDB_conformers p := p_confs p.
+Definition PDB_atoms p := p_atoms p.
+Definition PDB_par_models := PDB_models.
+Definition PDB_par_chains := PDB_chains.
+Definition PDB_par_residues := PDB_residues.
+Definition PDB_par_conformers := PDB_conformers.
+Definition PDB_par_atoms := PDB_atoms.
+Definition PDB_atoms_with_hierarchy p := p_awh p.
+Definition PDB_model (p : pdb) i := nth_error p i.
+Definition PDB_chain p i := nth_error (p_chains p) i.
+Definition PDB_residue p i := nth_error (p_residues p) i.
+Definition PDB_conformer p i := nth_error (p_confs p) i.
+Definition PDB_atom p i := nth_error (p_atoms p) i.
 
 Definition id_atom (a : atom) : sx := SL [SZ (a_serial a); SS (a_name a)].
 Definition id_conf (c : conformer) : sx := SL [SS (c_name c); sopt SS (c_alt c)].
